@@ -131,6 +131,32 @@ MUTS = {
     if flags.is_change_notification_enabled():
       self._notify_field_updates([base.FieldUpdate(self.sym_path + index, self, None, value, pg_typing.MISSING_VALUE)])
     return value"""),
+ 'N22-notify-switch-in-a-module-global (seeded C09-12)': ('PATCH', 'seeded/C09-12/patch.diff', ''),
+ 'N23-rollback-of-a-refused-write-only-for-TypeError-ValueError (seeded C09-11)': (D, """      except Exception:
+        # The write is rejected: the old value stays attached where it was.""", """      except (TypeError, ValueError):
+        # The write is rejected: the old value stays attached where it was."""),
+ 'N24-list-clear-snapshots-evaluated-items (seeded C09-10)': (L, """    old_values = list(self.sym_values())
+    # Detach the removed values from the object tree.""", """    old_values = list(self)
+    # Detach the removed values from the object tree."""),
+ 'N25-rollback-of-a-refused-write-not-for-ValueError': (D, """      except Exception:
+        # The write is rejected: the old value stays attached where it was.""", """      except (TypeError, KeyError):
+        # The write is rejected: the old value stays attached where it was."""),
+ 'N26-rollback-of-a-refused-write-not-for-TypeError': (D, """      except Exception:
+        # The write is rejected: the old value stays attached where it was.""", """      except (ValueError, KeyError):
+        # The write is rejected: the old value stays attached where it was."""),
+ 'N27-dict-write-takes-the-evaluated-old-value': (D, """    old_value = self.get(key, pg_typing.MISSING_VALUE)
+    if old_value is value:
+      return None
+""", """    old_value = self[key] if key in self else pg_typing.MISSING_VALUE
+    if old_value is value:
+      return None
+"""),
+ 'N28-list-del-takes-the-evaluated-old-value': (L, """      old_value = self.sym_getattr(i)
+      super().__delitem__(i)""", """      old_value = self[i]
+      super().__delitem__(i)"""),
+ 'N29-dict-clear-snapshots-evaluated-items': (D, """    items = dict(self.sym_items())
+    self._value_spec = None""", """    items = {k: self[k] for k in self.sym_keys()}
+    self._value_spec = None"""),
 }
 only = sys.argv[1:]
 for name, (path, old, new) in MUTS.items():
@@ -139,9 +165,12 @@ for name, (path, old, new) in MUTS.items():
   subprocess.run(['git','-C','/repo','worktree','add',M,'HEAD'],capture_output=True,check=True)
   for bp in BASE_PATCHES:
     subprocess.run(['git','-C',M,'apply',bp],check=True)
-  fp=os.path.join(M,path); s=open(fp).read()
-  assert old in s, name
-  open(fp,'w').write(s.replace(old,new,1))
+  if path == 'PATCH':
+    subprocess.run(['git','-C',M,'apply',os.path.join(VERIF, old)],check=True)
+  else:
+    fp=os.path.join(M,path); s=open(fp).read()
+    assert old in s, name
+    open(fp,'w').write(s.replace(old,new,1))
   imp = subprocess.run(['/venv/bin/python','-c','import pyglove'],cwd=M,capture_output=True)
   env=dict(os.environ, VERIF_REPO=M)
   for f in os.listdir(VERIF+'/replays'):
